@@ -111,9 +111,9 @@ static void explore(Result& R) {
     const bool th = R.args.thorough(); setup(); const int K = th ? 12 : 3; long cases = 0, ok = 0, fail = 0; double worst = 0; long unit = 0;
     for (int s = 0; s < (int)g_shapes.size(); s++) for (int a = 0; a < 10; a++) for (int l = 0; l < 4; l++) for (int k = 0; k < K; k++) {
         if (!R.args.mine(unit++)) continue; if (R.out_of_time(0.9)) { R.cap("deadline"); goto pop; }
-        Case c{s, a, l, k}; cases++;
+        Case c{s, a, l, k}; cases++; progress("mode=single\ncase=" + case_text(c) + "\n");
         ForkOut fo = run_forked([&](char* buf, size_t cap) { std::string r = divide_once(c); snprintf(buf, cap, "%s", r.c_str()); }, 60);
-        std::string r = fo.data; std::string err;
+        std::string r = fo.data; std::string err; R.mix(case_text(c) + "=>" + r);
         if (fo.status == -1000) err = "division-does-not-return: no answer within 60 s";
         else if (fo.status != 0) err = "exception-or-crash-escapes-the-division: child ended with status " + std::to_string(fo.status) + (fo.status == -6 ? " (SIGABRT: std::terminate from the noexcept wrapper)" : fo.status == -11 ? " (SIGSEGV)" : "");
         else if (r.rfind("ok:", 0) == 0) { ok++; double d = atof(r.c_str() + 3); if (d < 0) { R["successes_with_mother_outside_the_edge_band_volume_not_judged"]++; d = 0; } worst = std::max(worst, d); R.tables["successes_per_shape"][g_shapes[s].name]++; { long& w = R.tables["worst_volume_defect_per_shape_in_permille"][g_shapes[s].name]; w = std::max(w, (long)(d * 1000)); }
